@@ -950,6 +950,37 @@ fn generate_overlap(seed: u64) -> Scenario {
         6 | 7 => Step::Peer { target: 1, kind: SendKind::AskTo(to), mty: MTy::U, body: plain(nu(), d_c) },
         _ => Step::SelectAsk { target: 1, ms: to, body: plain(nu(), d_c) },
     };
+    if r.chance(35) {
+        // "busy callee": B is inside a handler that will ask A later; meanwhile A's ask to B queues behind it and is given up
+        // (timeout or select!) well before B asks. Nobody waits for anybody when B finally asks A.
+        let give_up = 2 * r.range(1, 2);
+        let m0 = Body {
+            uid: nu(),
+            flags: 0,
+            steps: vec![Step::Sleep(2 * r.range(5, 8)), Step::Peer { target: 0, kind: SendKind::Ask, mty: MTy::U, body: plain(nu(), 0) }],
+        };
+        let abandoned = if r.chance(50) {
+            Step::Peer { target: 1, kind: SendKind::AskTo(give_up), mty: MTy::U, body: plain(nu(), 0) }
+        } else {
+            Step::SelectAsk { target: 1, ms: give_up, body: plain(nu(), 0) }
+        };
+        let m1 = Body { uid: nu(), flags: 0, steps: vec![abandoned] };
+        let clients = vec![
+            ClientSpec { init: vec![Some(1), None, None, None], ops: vec![ClientOp { pre: Pre::None, op: Op::Send { slot: 0, kind: SendKind::Tell, mty: MTy::U, body: m0 } }], drop_at_end: true },
+            ClientSpec { init: vec![Some(0), None, None, None], ops: vec![ClientOp { pre: Pre::Sleep(2), op: Op::Send { slot: 0, kind: SendKind::Ask, mty: MTy::U, body: m1 } }], drop_at_end: true },
+        ];
+        return Scenario {
+            seed,
+            pert: 0,
+            profile: "deadlock".to_string(),
+            actors,
+            clients,
+            ngates: 1,
+            teardown: vec![Teardown::Stop, Teardown::Stop, Teardown::Kill],
+            sample_until: 61,
+            default_cap: 32,
+        };
+    }
     let m1 = Body { uid: nu(), flags: 0, steps: vec![first] };
     let back = Body { uid: nu(), flags: 0, steps: vec![Step::Peer { target: 0, kind: if r.chance(70) { SendKind::Ask } else { SendKind::AskTo(2 * r.range(1, 5)) }, mty: MTy::U, body: plain(nu(), 2 * r.below(3)) }] };
     let clients = vec![
